@@ -162,6 +162,11 @@ func (e *env) fire(method, target string, body []byte, hdrs map[string]string, c
 		req.Header.Set(k, v)
 	}
 	c.apply(req, e.w.secret)
+	return e.serve(req)
+}
+
+// serve runs one request through the real handler.
+func (e *env) serve(req *http.Request) response {
 	rr := httptest.NewRecorder()
 	done := make(chan string, 1)
 	go func() {
